@@ -4,21 +4,23 @@
 # are computed; this is a syntactic normal form, not an execution.
 
 import ast
+from pyfront import clone as _clone
 import copy
 
 from report import AnalysisError
-from pyfront import canon, _Subst
+from pyfront import canon, _Subst, literals
 
 
 def subst_expr(e, env):
     if not env:
         return e
-    return ast.fix_missing_locations(_Subst(env).visit(copy.deepcopy(e)))
+    return ast.fix_missing_locations(_Subst(env).visit(_clone(e)))
 
 
 class Fwd:
     def __init__(self, keep_attrs=False, split=False):
         self.split = split     # path-sensitive: no merging after if/else
+        self.loopctl = []      # (path condition list, 'continue' | 'break')
         self.returns = []      # (path condition list, expr | None)
         self.raises = []       # (path condition list, class text)
         self.effects = []      # (path condition list, stmt text) for non-assignment statements
@@ -50,14 +52,17 @@ class Fwd:
                 continue
             if isinstance(st, ast.If):
                 test = subst_expr(st.test, env)
-                ct = canon(test)
+                # path conditions are recorded as normalised literals (text, polarity): `x is not None`
+                # taken False and `x is None` taken True give the same entry
+                ct_t = tuple(sorted(literals(test, True)))
+                ct_f = tuple(sorted(literals(test, False)))
                 if self.split:
                     rest = stmts[i + 1:]
-                    self.run(list(st.body) + rest, env, tuple(conds) + ((ct, True),))
-                    self.run(list(st.orelse) + rest, env, tuple(conds) + ((ct, False),))
+                    self.run(list(st.body) + rest, env, tuple(conds) + ct_t)
+                    self.run(list(st.orelse) + rest, env, tuple(conds) + ct_f)
                     return None
-                e1 = self.run(st.body, env, tuple(conds) + ((ct, True),))
-                e2 = self.run(st.orelse, env, tuple(conds) + ((ct, False),))
+                e1 = self.run(st.body, env, tuple(conds) + ct_t)
+                e2 = self.run(st.orelse, env, tuple(conds) + ct_f)
                 if e1 is None and e2 is None:
                     return None
                 if e1 is None:
@@ -92,6 +97,9 @@ class Fwd:
                 continue
             if isinstance(st, ast.Delete):
                 continue
+            if isinstance(st, (ast.Continue, ast.Break)):
+                self.loopctl.append((list(conds), "continue" if isinstance(st, ast.Continue) else "break"))
+                return None
             raise AnalysisError("forward substitution: statement outside the vocabulary: %s" % canon(st)[:60])
         return env
 
